@@ -686,7 +686,7 @@ pub static C15: PropDef = PropDef {
 	real: PROC_REAL,
 	stub: PROC_STUB,
 	assumptions: &["the expected stdout is the library's output for the same input sequence on one Translator"],
-	expected_probes: &["fail.missing", "fail.directory", "fail.translate", "fail.stdin-twice", "fail.position>0", "earlier_output_below_8k", "earlier_output_above_8k", "all_ok", "p.shortwrite", "p.readfail.fired", "bin.debug", "bin.release"],
+	expected_probes: &["fail.missing", "fail.directory", "fail.translate", "fail.stdin-twice", "fail.position>0", "earlier_output_below_8k", "earlier_output_above_8k", "all_ok", "p.shortwrite", "p.readfail.fired", "p.eintr", "bin.debug", "bin.release"],
 	needs_bins: true,
 	watchdog_s: 90,
 };
@@ -805,6 +805,18 @@ fn gen15(seed: u64, idx: u64, _t: Tier) -> J {
 	if r.chance(1, 3) {
 		c.wsched = gen::gen_sched(&mut r, 4096);
 	}
+	if fail_at.is_none() && r.chance(1, 2) {
+		// Transient faults (outside the statement's quantifier, weak oracle): one EINTR
+		// on a write to fd 1 or on a read of an input.
+		if r.chance(1, 2) {
+			c.weintr = vec![r.range(0, 5) as u32];
+		} else if !c.files.is_empty() {
+			let fi = r.usize_below(c.files.len());
+			c.files[fi].plan = Some(ReadPlan { sched: gen::gen_sched(&mut r, 4096), fail: None, eintr: vec![r.range(0, 4) as u32] });
+			c.nommap = true;
+		}
+		c.params.insert("transient".into(), json!(true));
+	}
 	c.params.insert("kind".into(), json!(kind));
 	c.params.insert("fail_at".into(), json!(fail_at));
 	c.to_json()
@@ -832,7 +844,9 @@ fn eval15(case: &J) -> Eval {
 		if code == 0 && o.stdout != ex.maximal {
 			ev.violate("success/output-missing", format!("xt {args}: exit 0 but stdout holds {} of the {} bytes of output", o.stdout.len(), ex.maximal.len()));
 		}
-		if code != 0 {
+		let transient = c.params.get("transient").is_some();
+		ev.count("p.eintr", u64::from(transient && o.log.iter().any(|l| l.contains(" -1 4 "))));
+		if code != 0 && !(transient && code == 1 && text(&o.stderr).starts_with("xt error") && is_prefix(&o.stdout, &ex.maximal)) {
 			ev.violate("success/unexpected-failure", format!("xt {args}: every input translates in the library but xt ended with {}: {:?}", o.status(), show(&o.stderr)));
 		}
 	} else {
